@@ -74,7 +74,7 @@ checks["C14"] = (MC,
 EXTRA_CHECKS = {}
 EXTRA_CHECKS["C08"] = (TV,
     "as C01 with a string value of 1..2 (quick) / 1..4 (thorough) symbolic bytes over printable ASCII + newline/tab "
-    "travelling along 17 data paths from 3 origins (raw literal, file read at run time, standard input); ShSem records "
+    "travelling along 22 data paths (incl. the tenth/eleventh positional parameter) from 4 origins (raw literal, file read at run time, standard input, captured output of a command); ShSem records "
     "for every data byte the condition under which the shell would interpret it (quote, expansion, escape, word "
     "splitting, globbing, option); one violation condition per path (some byte is active OR an observable differs) is "
     "enumerated per character class by z3, every class witness is re-run on the real bash",
